@@ -8,6 +8,7 @@
 //        D<c|g|h>:<name>:<unit|->:<text>   U   N
 //   T <threads> <per_thread> <nkeys> <hist 0|1> <rounds> <gap_us>   free-running stress (see stress())
 //   V <nkeys> <per_round> <rounds> <hist 0|1> <renderers>    visibility stress (see visibility())
+//   A <a|m|g> <threads> <series> <rounds> <p>                handle atomics under contention (see atomics())
 // stdout, one line per case:
 //   C: renderings joined by '|'; a rendering = '@' + samples joined by ';' (or "E<hex msg>" if unreadable);
 //      sample = fam,type,help,name,labels,extra,value
@@ -17,6 +18,8 @@
 //   T: recorded=<n per key,..> counts=<..> ctr=<..> renders=<n> drains=<n> nonmonotone=<n> over=<n>
 //      (drains = render() + run_upkeep() calls STARTED while recording threads were still running)
 //   V: rounds=<n> renders=<n> short=<n> over=<n> settled_bad=<n> first=<round:key:expected:count:sum bits|->
+//   A: panics=<n> samples=<monitor renders> nonmonotone=<n> unreadable=<n> ends=<series0 round ends,..>;<series1 ..>;..
+//      (counter ends as u64, gauge ends as f64 bits hex; every value is read from a render() of the exporter)
 //   P<hex of panic message> if the case panicked.
 use metrics::{Key, KeyName, Label, Recorder, Unit};
 use metrics_exporter_prometheus::{Matcher, PrometheusBuilder, PrometheusHandle, PrometheusRecorder};
@@ -330,9 +333,11 @@ fn stress(line: &str) -> String {
                 }
                 (n, nd, nonmono, over)
             });
-            for h in hs { h.join().unwrap(); }
+            let results: Vec<_> = hs.into_iter().map(|h| h.join()).collect();
             done.store(true, Ordering::Release);
-            r.join().unwrap()
+            let r = r.join();
+            if results.iter().any(|x| x.is_err()) { panic!("a recording thread panicked"); }
+            r.expect("the render/upkeep thread panicked")
         });
         renders += r_renders;
         drains += r_drains;
@@ -419,6 +424,125 @@ fn visibility(line: &str) -> String {
     format!("rounds={} renders={} short={} over={} settled_bad={} first={}", rounds, renders, short, over, settled_bad, first)
 }
 
+// ------------------------------------------------------------------ handle atomics under contention
+// `threads` workers, each with its OWN handles obtained from the recorder (register_counter /
+// register_gauge on the same keys), run `rounds` barrier-released rounds over `series` series; after each
+// round worker 0 reads every series from a render() of the exporter; a monitor thread renders all the
+// time and (counters) checks that no series ever decreases.  Nothing is excused in this engine.
+//   a: worker i publishes absolute(r*p + ((i + r) % T) + 1 + k) on every series k: the round must end at
+//      the largest value, r*p + T + k
+//   m: worker 0 makes p increments of 2 + r%5, worker 1 absolute(s + r%2), workers i>=2
+//      absolute(s - min(s, 3i + r%4)), s = the series' value at the start of the round
+//   g: even rounds: every worker p times increment/decrement (by parity of i + r) of i + 1 + r%3;
+//      odd rounds: worker 0 set((r%1000 + 1) << 20), worker i>=1 increment(2^i)
+fn atomics(line: &str) -> String {
+    use std::sync::atomic::AtomicU64 as StdU64;
+    use std::sync::atomic::Ordering::SeqCst;
+    let mut t = Toks { it: line.split_whitespace() };
+    assert_eq!(t.s(), "A");
+    let kind = t.s().to_string();
+    let nt = t.n();
+    let ns = t.n();
+    let rounds = t.n() as u64;
+    let p = t.n() as u64;
+    let gauge = kind == "g";
+    let rec = PrometheusBuilder::new().add_global_label("g", "1").build_recorder();
+    let handle = rec.handle();
+    let name = |k: usize| format!("{}{}", if gauge { "ag" } else { "ac" }, k);
+    let keys: Vec<Key> = (0..ns).map(|k| Key::from_parts(name(k), vec![Label::new("s", "x")])).collect();
+    let series: Vec<String> = (0..ns).map(|k| format!("{}{{g=\"1\",s=\"x\"}}", name(k))).collect();
+    for key in &keys { if gauge { let _ = rec.register_gauge(key, &METADATA); } else { let _ = rec.register_counter(key, &METADATA); } }
+    let read = |text: &str, k: usize| -> Option<u64> {
+        if gauge { fvalue_of(text, &series[k]).map(|x| x.to_bits()) } else { count_of(text, &series[k]) }
+    };
+    let cur: Vec<StdU64> = (0..ns).map(|_| StdU64::new(0)).collect();          // value at the start of the round (as read from render)
+    let ends: Vec<std::sync::Mutex<Vec<u64>>> = (0..ns).map(|_| std::sync::Mutex::new(Vec::new())).collect();
+    let panics = StdU64::new(0);
+    let unreadable = StdU64::new(0);
+    let stop = AtomicBool::new(false);
+    let barrier = std::sync::Barrier::new(nt);
+    let arrived = StdU64::new(0);     // spin barrier for the release of the operations (tight start)
+    let (samples, nonmono) = std::thread::scope(|sc| {
+        let (rec, handle, keys, cur, ends, panics, unreadable, stop, barrier, read, kind, arrived) =
+            (&rec, &handle, &keys, &cur, &ends, &panics, &unreadable, &stop, &barrier, &read, &kind, &arrived);
+        let mon = sc.spawn(move || {
+            let mut last = vec![0u64; ns];
+            let (mut n, mut bad) = (0u64, 0u64);
+            while !stop.load(SeqCst) {
+                let text = handle.render();
+                n += 1;
+                if !gauge {
+                    for k in 0..ns {
+                        match read(&text, k) {
+                            Some(v) => { if v < last[k] { bad += 1; } last[k] = v; }
+                            None => { unreadable.fetch_add(1, SeqCst); }
+                        }
+                    }
+                }
+            }
+            (n, bad)
+        });
+        let mut ws = Vec::new();
+        for idx in 0..nt {
+            ws.push(sc.spawn(move || {
+                let i = idx as u64;
+                let cs: Vec<metrics::Counter> = if gauge { Vec::new() } else { keys.iter().map(|k| rec.register_counter(k, &METADATA)).collect() };
+                let gs: Vec<metrics::Gauge> = if gauge { keys.iter().map(|k| rec.register_gauge(k, &METADATA)).collect() } else { Vec::new() };
+                for r in 1..=rounds {
+                    barrier.wait();
+                    arrived.fetch_add(1, SeqCst);
+                    let mut spins = 0u32;
+                    while arrived.load(SeqCst) < r * nt as u64 {
+                        spins += 1;
+                        if spins % 4096 == 0 { std::thread::yield_now(); } else { std::hint::spin_loop(); }
+                    }
+                    let res = std::panic::catch_unwind(std::panic::AssertUnwindSafe(|| {
+                        for kk in 0..ns {
+                            let k = (kk + idx) % ns;          // workers walk the series in different orders
+                            let s = cur[k].load(SeqCst);
+                            match kind.as_str() {
+                                "a" => cs[k].absolute(r * p + ((i + r) % nt as u64) + 1 + k as u64),
+                                "m" => {
+                                    if idx == 0 { for _ in 0..p { cs[k].increment(2 + r % 5); } }
+                                    else if idx == 1 { cs[k].absolute(s + r % 2) }
+                                    else { cs[k].absolute(s - s.min(3 * i + r % 4)) }
+                                }
+                                _ => {
+                                    if r % 2 == 0 {
+                                        let v = (i + 1 + r % 3) as f64;
+                                        for _ in 0..p { if (i + r) % 2 == 0 { gs[k].increment(v) } else { gs[k].decrement(v) } }
+                                    } else if idx == 0 { gs[k].set(((r % 1000 + 1) << 20) as f64) }
+                                    else { gs[k].increment((1u64 << i) as f64) }
+                                }
+                            }
+                        }
+                    }));
+                    if res.is_err() { panics.fetch_add(1, SeqCst); }
+                    barrier.wait();
+                    if idx == 0 {
+                        let text = handle.render();
+                        for k in 0..ns {
+                            match read(&text, k) {
+                                Some(v) => { ends[k].lock().unwrap().push(v); cur[k].store(v, SeqCst); }
+                                None => { unreadable.fetch_add(1, SeqCst); ends[k].lock().unwrap().push(u64::MAX); }
+                            }
+                        }
+                    }
+                    barrier.wait();
+                }
+            }));
+        }
+        let results: Vec<_> = ws.into_iter().map(|h| h.join()).collect();
+        stop.store(true, SeqCst);
+        let m = mon.join();
+        if results.iter().any(|x| x.is_err()) { panic!("a worker thread panicked outside its operations"); }
+        m.expect("the monitor thread panicked")
+    });
+    let fmt = |v: &Vec<u64>| v.iter().map(|x| if gauge { format!("{:016x}", x) } else { x.to_string() }).collect::<Vec<_>>().join(",");
+    let e: Vec<String> = ends.iter().map(|m| fmt(&m.lock().unwrap())).collect();
+    format!("panics={} samples={} nonmonotone={} unreadable={} ends={}", panics.load(SeqCst), samples, nonmono, unreadable.load(SeqCst), e.join(";"))
+}
+
 fn main() {
     std::panic::set_hook(Box::new(|_| {}));
     let stdin = std::io::stdin();
@@ -427,7 +551,7 @@ fn main() {
     for line in stdin.lock().lines() {
         let line = line.unwrap();
         if line.trim().is_empty() { continue; }
-        let r = std::panic::catch_unwind(|| if line.starts_with('T') { stress(&line) } else if line.starts_with('V') { visibility(&line) } else { run_case(&line) });
+        let r = std::panic::catch_unwind(|| if line.starts_with('T') { stress(&line) } else if line.starts_with('V') { visibility(&line) } else if line.starts_with('A') { atomics(&line) } else { run_case(&line) });
         match r {
             Ok(s) => writeln!(w, "{}", s).unwrap(),
             Err(e) => {
